@@ -89,4 +89,25 @@ Proof. exact EquivMw.ac_server_tie. Qed.
 Print Assumptions C09_code_ac_server_tie.
 
 
+
+(* ---- tie to the code (server/config.py get_access_control_config, __main__._serve, server/server.py start_server: the configured policy reaches the chain): theorems of coq/Equiv/EquivWiring.v (statements there), re-checked against the definitions
+   regenerated from /repo's working tree; see DESIGN.md 11.8 / 11.11 ---- *)
+From NV Require Equiv.EquivWiring.
+Theorem C09_code_access_control_config_tie : ltac:(let t := type of @EquivWiring.access_control_config_tie in exact t).
+Proof. exact (@EquivWiring.access_control_config_tie). Qed.
+Print Assumptions C09_code_access_control_config_tie.
+
+Theorem C09_code_serve_args_tie : ltac:(let t := type of @EquivWiring.serve_args_tie in exact t).
+Proof. exact (@EquivWiring.serve_args_tie). Qed.
+Print Assumptions C09_code_serve_args_tie.
+
+Theorem C09_code_cli_wiring : ltac:(let t := type of @EquivWiring.cli_wiring in exact t).
+Proof. exact (@EquivWiring.cli_wiring). Qed.
+Print Assumptions C09_code_cli_wiring.
+
+Theorem C09_code_middlewares_tie : ltac:(let t := type of @EquivWiring.middlewares_tie in exact t).
+Proof. exact (@EquivWiring.middlewares_tie). Qed.
+Print Assumptions C09_code_middlewares_tie.
+
+
 Close Scope N_scope.
